@@ -51,6 +51,10 @@ def cases(tier, seed):
     for m in MS:
         for k in KS + KS_EXTRA + [None]:
             yield {"kind": "py-filter", "m": m, "k": k}
+    # several sensors of different dimension in ONE filter: each sensor's decision uses its own dimension
+    for dims in ([1, 3], [3, 1], [2, 4, 1]):
+        for k in (2.0, 5.0):
+            yield {"kind": "py-multi", "dims": dims, "k": k, "m": 0}
     from fv.props import c06_cpp
     yield from c06_cpp.cases(tier, seed)
 
@@ -79,7 +83,52 @@ def direct_inputs(m, k):
     return out
 
 
+def multi_def(dims):
+    n = max(dims)
+    names = ["a", "b", "c", "d"][:n]
+    model = [[x, space.S(x)] for x in names]
+    sens = [[f"s{i}", [[f"r{x}", space.S(x)] for x in names[:m]]] for i, m in enumerate(dims)]
+    sn = [[f"s{i}", [[f"r{x}", 0.5] for x in names[:m]]] for i, m in enumerate(dims)]
+    return space.mkdef("multi" + "".join(map(str, dims)), names, [], [], model, [], [], sens, sn)
+
+
+def eval_multi(case):
+    dims, k = case["dims"], case["k"]
+    d = multi_def(dims)
+    ekf = pyimpl.py_ekf(d, {"innovation_filtering": k})
+    names = sorted(d["state"])
+    fails, outcomes, sigs = [], set(), []
+    n = 0
+    for si, m in enumerate(dims):
+        key = f"s{si}"
+        T = threshold(k, m)
+        r = sqrt(T)
+        for label, z1 in [("sqrtT-", nextafter(r, -inf)), ("sqrtT+", nextafter(nextafter(r, inf), inf)), ("half", r / 2), ("double", 2 * r)]:
+            z = [z1] + [0.0] * (m - 1)
+            nis = z1 * z1
+            exp = nis > T
+            state = ekf.State()
+            cov = ekf.Covariance(**{s_: 0.5 for s_ in names})
+            reading = ekf.make_reading(key, **{f"r{s_}": z[i] for i, s_ in enumerate(names[:m])})
+            try:
+                out = ekf.sensor_model(state, cov, sensor_key=key, sensor_reading=reading)
+            except Exception as e:
+                fails.append({"key": f"raises:{type(e).__name__}:py-multi", "what": f"dims={dims} k={k} sensor {key}: {e!r}"[:300]})
+                break
+            n += 1
+            got = bool(np.array_equal(out.state.data, state.data) and np.array_equal(out.covariance.data, cov.data))
+            outcomes.add("discard" if got else "keep")
+            sigs.append(f"pym:{dims}:{k}:{key}:{label}")
+            if got != exp and not any(f["key"] == "decision:py-multi" for f in fails):
+                fails.append({"key": "decision:py-multi", "what": f"filter with sensors of dimensions {dims}, k={k}: sensor {key} (m={m}) reading "
+                              f"{z} discarded={got}, but NIS={nis!r} > T(m={m})={T!r} is {exp}"})
+    return {"n": n, "fails": fails, "sigs": sigs, "outcomes": sorted(outcomes) + ["py-multi-sensor"],
+            "sample": {"kind": "py-multi", "dims": dims, "k": k}}
+
+
 def eval_case(case):
+    if case["kind"] == "py-multi":
+        return eval_multi(case)
     if case["kind"].startswith("cpp"):
         from fv.props import c06_cpp
         return c06_cpp.eval_case(case)
@@ -156,5 +205,5 @@ def eval_case(case):
             "sample": {"kind": case["kind"], "m": m, "k": k, "boundary_readings": [z for _, z in zs[:3]]}}
 
 
-REQUIRED_OUTCOMES = (["keep", "discard", "cpp-helper-ran", "cpp-filter-ran"] + [f"{o}:helper:m{m}:k{k}" for o in ("keep", "discard") for m in MS for k in KS]
+REQUIRED_OUTCOMES = (["keep", "discard", "cpp-helper-ran", "cpp-filter-ran", "py-multi-sensor"] + [f"{o}:helper:m{m}:k{k}" for o in ("keep", "discard") for m in MS for k in KS]
                      + [f"{o}:cppf:m{m}:k5.0" for o in ("keep", "discard") for m in MS] + [f"keep:cppf:m{m}:kNone" for m in MS] + [f"keep:cppf:m{m}:k0.0" for m in MS] + [f"discard:m{m}:k{k}" for m in MS for k in KS] + [f"keep:m{m}:k{k}" for m in MS for k in KS + [None]])
